@@ -62,7 +62,10 @@ def run(tier):
         # the repository's own worlds (every model type, variable depth surfaces, ...) with the points of their .dat files
         repo = datfiles.repo_worlds(max_points=24 if quick else 60)
         c.notes["repo_worlds"] = len(repo)
-        jobs = list(jobs) + [json.dumps(w) for w in repo]
+        from lib import gen
+        gj = gen.jobs(c, tier, 8 if quick else 60)          # documents of the world-file grammar (treated like the repository's worlds)
+        c.notes["grammar_worlds"] = len(gj)
+        jobs = list(jobs) + [json.dumps(w) for w in repo] + [j.replace('{"wb"', '{"gen":1,"wb"', 1) if j.startswith('{"wb"') else j for j in gj]
         for ji, job in enumerate(jobs):
             jp = os.path.join(tmp, "job%d.json" % ji)
             open(jp, "w").write(job)
